@@ -557,6 +557,11 @@ func (x ExtendedReport) Marshal() ([]byte, error) {
 	}
 
 	length := wireSize(x)
+	if length%4 != 0 {
+		// e.g. an RLE block with an odd number of chunks or an unknown
+		// block whose contents are not a multiple of 32 bits
+		return []byte{}, errBadLength
+	}
 
 	// RTCP Header
 	header := Header{
